@@ -350,6 +350,33 @@ func checkFault(c RunCase) fw.Outcome {
 			out.Violation = fmt.Sprintf("%q fault %d: %s", c.Src, k, msg)
 			return out
 		}
+		// the same callback panicking with a value of some type (foreign code may panic with anything): the run still
+		// ends with an error, never with neither a value nor an error
+		{
+			type odd struct{ K int }
+			vals := []any{"a string", fmt.Errorf("an error value"), odd{k}, &odd{k}, k, 3.5, []string{"x"}, nil}
+			trp := &tree.Tree{PanicAt: k, PanicWith: vals[k%len(vals)]}
+			var resp *xpath.Result
+			var escaped any
+			func() {
+				defer func() { escaped = recover() }()
+				resp = xpath.NewCtxFromCurrent(context.Background(), m, trp.At(c.Ctx)).Run()
+			}()
+			if escaped != nil {
+				out.Violation = fmt.Sprintf("%q at %s: callback %d of %d panicked with %T and the panic escaped from Run: %v", c.Src, c.Ctx, k, n, vals[k%len(vals)], escaped)
+				return out
+			}
+			if trp.Calls() >= k {
+				if msg := accessorsSafe(resp); msg != "" {
+					out.Violation = fmt.Sprintf("%q at %s: callback %d of %d panicked with a %T: %s", c.Src, c.Ctx, k, n, vals[k%len(vals)], msg)
+					return out
+				}
+				if vals[k%len(vals)] != nil && resp.GetError() == nil {
+					out.Violation = fmt.Sprintf("%q at %s: callback %d of %d panicked with a %T but the run reports no error (value %q)", c.Src, c.Ctx, k, n, vals[k%len(vals)], resp.PrintResult())
+					return out
+				}
+			}
+		}
 		// the same callback, if it is a value fetch, answering with a nil datum and no error: still a value or an error
 		if k <= len(tr0.Trace) && tr0.Trace[k-1].Op == "GetValue" {
 			trn := &tree.Tree{NilAt: k}
